@@ -24,12 +24,14 @@ type Session struct {
 	Oracle  map[int]map[uint64]uint64
 	ROracle map[int]map[uint64]uint64 // contents at MakeRoot time, per root slot
 	Cursors map[int]*mast.Cursor
+	canonSeen map[string]string
+	curs      map[int]*curState
 	ctx     context.Context
 }
 
 func NewSession(cfg Cfg) *Session {
 	s := &Session{Cfg: cfg, Store: NewRecStore("rec0"), Trees: map[int]*mast.Mast{}, Roots: map[int]*mast.Root{},
-		Oracle: map[int]map[uint64]uint64{}, ROracle: map[int]map[uint64]uint64{}, Cursors: map[int]*mast.Cursor{},
+		Oracle: map[int]map[uint64]uint64{}, ROracle: map[int]map[uint64]uint64{}, Cursors: map[int]*mast.Cursor{}, canonSeen: map[string]string{}, curs: map[int]*curState{},
 		ctx: context.Background()}
 	switch cfg.Cache {
 	case "big":
@@ -133,6 +135,9 @@ func (s *Session) Exec(line string) (obs string, viol string) {
 		return n
 	}
 	tree := func(i int) *mast.Mast { return s.Trees[int(num(i))] }
+	if o, v, ok := s.Exec2(t, num); ok {
+		return o, v
+	}
 	switch t[0] {
 	case "new":
 		r := mast.NewRoot(createOpts(s.Cfg))
@@ -292,6 +297,40 @@ func (s *Session) Exec(line string) (obs string, viol string) {
 			return fmt.Sprintf("%s %d %d %d", link, r.Size, r.Height, r.BranchFactor), viol
 		}
 		return fmt.Sprintf("%s %d %d %d ;%s", link, r.Size, r.Height, r.BranchFactor, storesString(calls)), viol
+	case "canonroot":
+		m := tree(1)
+		if m == nil {
+			return "bad-slot", ""
+		}
+		r, err := m.MakeRoot(s.ctx)
+		if err != nil {
+			return errClass(err), "MakeRoot failed on a healthy store: " + err.Error()
+		}
+		link := "-"
+		if r.Link != nil {
+			link = *r.Link
+		}
+		obs = fmt.Sprintf("%s %d %d %d", link, r.Size, r.Height, r.BranchFactor)
+		key := sortedList(s.Oracle[int(num(1))])
+		if prev, ok := s.canonSeen[key]; ok && prev != obs {
+			viol = "equal contents persisted to different roots: " + prev + " vs " + obs
+		}
+		s.canonSeen[key] = obs
+		return obs, viol
+	case "pshape":
+		r := s.Roots[int(num(1))]
+		if r == nil {
+			return "bad-slot", ""
+		}
+		link := ""
+		if r.Link != nil {
+			link = *r.Link
+		}
+		sh, n, v := s.PersistedShape(link, int(r.Height))
+		if v == "" && uint64(n) != r.Size {
+			v = fmt.Sprintf("root records size %d, %d entries reachable", r.Size, n)
+		}
+		return sh, v
 	case "load":
 		r := s.Roots[int(num(1))]
 		if r == nil {
@@ -326,4 +365,20 @@ func checkName(c StoreCall) string {
 		return "stored name " + c.Name + " is not 43 characters of unpadded base64url"
 	}
 	return ""
+}
+
+// ModelLine gives the line sent to the model for an implementation line: some model ops take
+// their argument (the entry list) from the harness's oracle rather than from mast.
+func (s *Session) ModelLine(line string) string {
+	t := strings.Fields(line)
+	if t[0] == "diffc" {
+		return "diff " + strings.Join(t[1:], " ")
+	}
+	if len(t) >= 2 && (t[0] == "canonroot" || t[0] == "canonshape") {
+		slot, _ := strconv.Atoi(t[1])
+		l := sortedList(s.Oracle[slot])
+		l = strings.ReplaceAll(strings.Trim(l, "[]"), ",", " ")
+		return strings.TrimSpace(line + " " + l)
+	}
+	return line
 }
